@@ -4,7 +4,7 @@ from contracts import REG
 from specs.version import IS, SeqIS, CMP6
 
 U = 'mesonbuild/utils/universal.py'
-VersionS = Struct('Version', 'mesonbuild.utils.universal:Version', _v=SeqIS)
+VersionS = Struct('Version', 'mesonbuild.utils.universal:Version', _s=Str, _v=SeqIS)
 
 REG.contract('C19', U, 'Version.__cmp',
              params={'self': VersionS, 'other': VersionS, 'comparator': CMP6},
@@ -12,3 +12,47 @@ REG.contract('C19', U, 'Version.__cmp',
              ensures=['result == apply_op(comparator, vcmp(self._v, other._v, 0))'],
              loops={0: Loop(invariant=['vcmp(self._v, other._v, 0) == vcmp(self._v, other._v, __i)'])},
              result=Bool, floor=8)
+
+for name, op in (('__lt__', 'lt'), ('__gt__', 'gt'), ('__le__', 'le'), ('__ge__', 'ge')):
+    REG.contract('C19', U, f'Version.{name}',
+                 params={'self': VersionS, 'other': VersionS},
+                 ensures=[f'result == apply_op(operator.{op}, vcmp(self._v, other._v, 0))'],
+                 result=Bool, floor=2)
+    REG.contract('C19', U, f'Version.{name}', variant='foreign',
+                 params={'self': VersionS, 'other': Int},
+                 ensures=['result is NotImplemented'], floor=1,
+                 note='an operand that is not a Version (an int stands for any foreign object)')
+
+# == / != : tuple equality of the component tuples; restated through the order by lemma L19.eq
+REG.contract('C19', U, 'Version.__eq__',
+             params={'self': VersionS, 'other': VersionS},
+             ensures=['result == seq_eq_from(self._v, other._v, 0)',
+                      'result == (vcmp(self._v, other._v, 0) == 0)'],
+             uses=[('L19.vcmp_zero_iff_eq', {'a': 'self._v', 'b': 'other._v', 'k': '0'})],
+             result=Bool, floor=2)
+REG.contract('C19', U, 'Version.__ne__',
+             params={'self': VersionS, 'other': VersionS},
+             ensures=['result == (not seq_eq_from(self._v, other._v, 0))',
+                      'result == (vcmp(self._v, other._v, 0) != 0)'],
+             uses=[('L19.vcmp_zero_iff_eq', {'a': 'self._v', 'b': 'other._v', 'k': '0'})],
+             result=Bool, floor=2)
+REG.contract('C19', U, 'Version.__hash__',
+             params={'self': VersionS},
+             ensures=['result == hash(self._v)'], result=Int, floor=1,
+             note='hash is a function of the component tuple alone; a == b => hash(a) == hash(b) for tuples is a CPython guarantee')
+
+REG.contract('C19', U, 'Version.__init__', trusted=True,
+             params={'self': VersionS, 's': Str},
+             ensures=['new(self)._v == toks(s)', 'new(self)._s == s'],
+             modifies=['self'],
+             note='regex finditer tokenisation; checked bounded against specs.version.spec_toks')
+
+REG.contract('C19', U, '_version_extract_cmpop',
+             params={'vstr2': Str},
+             ensures=['result[0] is op_of(vstr2)', 'result[1] == rest_of(vstr2)'],
+             result=TupleS(CMP6, Str), floor=16, reveal=['op_of', 'rest_of'])
+
+REG.contract('C19', U, 'version_compare',
+             params={'vstr1': Str, 'vstr2': Str},
+             ensures=['result == holds(vstr1, vstr2)'],
+             result=Bool, floor=6)
